@@ -951,7 +951,7 @@ MANIFEST_ENTRY = {
              'per-axis Q of both free functions the kernel constant 1/(n_a Q_a) does not depend on the sample count; transposing the '
              'input and swapping the per-axis arguments transposes the output (also at executor level with per-axis Q); a separable '
              'field transforms to the product of the per-axis transforms; the mask-and-return path is additive and C-homogeneous in '
-             'the mask (Babinet: mask + complement = unmasked) and linear in the field; the whole mask path to_fpm_and_back is transposed when field, mask and shift components are transposed (every pupil and mask shape) and, for a field embedded in a larger zero array, returns on the window of the original samples exactly what the original array returns; Wavefront.babinet (model: Lyot stop x [field - return through 1 - mask]) splits into the band-limiting residual plus Lyot x return(mask) on every grid and equals Lyot x to_fpm_and_back(mask) on a band-complete grid (Babinet's principle, also instantiated with exp(-2 pi i t)); an all-pass mask on a band-complete M x M '
+             'the mask (Babinet: mask + complement = unmasked) and linear in the field; the whole mask path to_fpm_and_back is transposed when field, mask and shift components are transposed (every pupil and mask shape) and, for a field embedded in a larger zero array, returns on the window of the original samples exactly what the original array returns; Wavefront.babinet (model: Lyot stop x [field - return through 1 - mask]) splits into the band-limiting residual plus Lyot x return(mask) on every grid and equals Lyot x to_fpm_and_back(mask) on a band-complete grid (the Babinet principle, also instantiated with exp(-2 pi i t)); an all-pass mask on a band-complete M x M '
              'grid (M fpm_dx dx = lambda f, M >= both pupil sides) returns the field exactly for EVERY mask shift, from '
              'root-of-unity orthogonality, itself proved from the character law when the kernel of e is Z (instantiated with '
              'exp(-2 pi i t)); the model toFpmAndBack these theorems speak about equals the mask-and-return sum fed with the '
